@@ -290,8 +290,12 @@ impl Init {
             Init::Spec(t) => t.build_layout::<2>((t.n_nodes() % 5) as u8),
             Init::Seeded(i, pts) => {
                 let mut t = i.build();
-                t.tree.node_value_mut(0).unwrap().state =
-                    affinitree::pwl::node::NodeState::FeasibleWitness(pts.iter().map(|p| Array1::from(p.clone())).collect());
+                // an empty list stands for the state Feasible ("feasible, witness no longer required or not known")
+                t.tree.node_value_mut(0).unwrap().state = if pts.is_empty() {
+                    affinitree::pwl::node::NodeState::Feasible
+                } else {
+                    affinitree::pwl::node::NodeState::FeasibleWitness(pts.iter().map(|p| Array1::from(p.clone())).collect())
+                };
                 t
             }
         }
